@@ -234,7 +234,7 @@ func part1(c *vf.Ctx, keys []*keyEnt) []sigEnt {
 	}
 	c.ParallelFor(len(jobs), func(i int) {
 		j := jobs[i]
-		data := c.Bytes("data1", i, 40)
+		data := c.Bytes("data1", i, []int{40, 0, 1, 5000}[i%4]) // message lengths incl. empty and multi-block
 		as, ok := j.k.signer.(ssh.AlgorithmSigner)
 		if !ok {
 			c.Violation("package signer does not implement AlgorithmSigner", j.k.name)
@@ -359,11 +359,15 @@ func part2(c *vf.Ctx, keys []*keyEnt, sigs []sigEnt) {
 		g := sigs[si]
 		other := append(append([]byte{}, g.data...), 0)
 		flipped := append([]byte{}, g.data...)
-		flipped[len(flipped)/2] ^= 0x10
+		if len(flipped) == 0 {
+			flipped = []byte{0x10}
+		} else {
+			flipped[len(flipped)/2] ^= 0x10
+		}
 		for _, v := range keys {
 			for _, f := range formats {
 				for di, data := range [][]byte{g.data, other, flipped, nil} {
-					if di >= 2 && f != g.alg {
+					if (di >= 2 && f != g.alg) || (di == 3 && len(g.data) == 0) {
 						continue
 					}
 					s := g.sig
@@ -784,7 +788,9 @@ func part4(c *vf.Ctx, keys []*keyEnt, hostSigner ssh.Signer, caPriv ed25519.Priv
 		c.Eval(1)
 		det := map[string]any{"key": j.k.name, "config": j.cfg.name, "flags": j.flags, "server_err": fmt.Sprint(serr), "client_err": fmt.Sprint(cerr)}
 		if timedOut {
-			c.Violation("handshake does not finish", det)
+			// never an oracle: the case is left undecided and the run is marked non-exhaustive
+			c.Capped("a handshake did not finish within the hang-protection timeout (case skipped)")
+			c.Outcome("handshake timed out (skipped)")
 			return
 		}
 		want := j.flags&1 == 1 || j.cfg.waived
